@@ -3,6 +3,7 @@
 From Coq Require Import List NArith Bool.
 From KV Require Import Bytes GenConsts Chunk Record Engine Script Conc AMapLemmas EngineInv EngineRefine EngineLog EngineRecover
   ConcProofs GenAtomic.
+From KV Require LockSet LockSetProofs GenAccess.
 Import ListNotations.
 Open Scope N_scope.
 
@@ -73,6 +74,22 @@ Print Assumptions C08_append_and_index_update_are_one_critical_section.
 (* Non-vacuity: two clients racing on one key, Get interleaved with the writes; the schedule lets
    client 1 look up the index before client 0 overwrites and read the file afterwards. *)
 Definition c08_cfg : cfg := mkCfg 4096 0 0 0.
+(* The atomic actions of the linearizability theorem are what the code's locks make atomic: every use of an index
+   shard anywhere in the engine (Put / Get / Delete of the sharded index, sizes, snapshots for iterators) and every
+   access to the engine's active-file pointer and file set, as extracted from the current source by translator T2c
+   with the locks held there, follows the lockset discipline - an index operation runs under the lock of its own
+   shard (exclusively when it changes the shard), the file set is read under the engine lock and changed under it
+   exclusively.  (The full table is the subject of C09.) *)
+Theorem C08_index_and_file_set_operations_are_atomic :
+  let sel := fun a => Nat.eqb (LockSet.a_loc a) GenAccess.loc_shard_index || Nat.eqb (LockSet.a_loc a) GenAccess.loc_db_active_file
+                      || Nat.eqb (LockSet.a_loc a) GenAccess.loc_db_older_files in
+  LockSet.lockset_ok (filter sel GenAccess.gen_accesses) = true /\
+  Nat.leb 6 (length (filter (fun a => Nat.eqb (LockSet.a_loc a) GenAccess.loc_shard_index) GenAccess.gen_accesses)) = true /\
+  existsb (fun a => Nat.eqb (LockSet.a_loc a) GenAccess.loc_shard_index && LockSet.a_write a) GenAccess.gen_accesses = true /\
+  GenAccess.gen_truncated = false.
+Proof. vm_compute. repeat split; reflexivity. Qed.
+Print Assumptions C08_index_and_file_set_operations_are_atomic.
+
 Example c08_run :
   match db_open c08_cfg empty_disk with
   | (OpenOk d _, _) =>
